@@ -3,7 +3,7 @@
    helper registration are decided by the check on the real planner (every emitted sub-request is validated by the
    receiving evaluating fake against ITS OWN schema; coverage/helpers through C01's single-server equality). *)
 From Coq Require Import List String Bool Arith.
-From Pebbles Require Import Base.Json Plan.Vars Plan.VarsProofs Plan.Header Plan.HeaderProofs Merge.Model Plan.Steps Plan.StepsProofs Plan.StepsCount Plan.PlanCount Plan.Sanitize Plan.SanitizeProofs Plan.EndToEnd.
+From Pebbles Require Import Base.Json Plan.Vars Plan.VarsProofs Plan.Header Plan.HeaderProofs Merge.Model Plan.Steps Plan.StepsProofs Plan.StepsCount Plan.PlanCount Plan.Sanitize Plan.SanitizeProofs Plan.EndToEnd Plan.NarrowProofs.
 Import ListNotations.
 Open Scope string_scope.
 
@@ -184,6 +184,25 @@ Theorem selected_response_keys_survive_sanitizing : forall tm sc ss ip a n ty d 
   In (SanField a n ty d sub) ss -> has_alias (fst (sanitize tm sc ss ip)) a.
 Proof. exact selected_response_keys_survive. Qed.
 
+(* what the sanitizer leaves below a field of an object type — where a service accepts fragments on that very type and
+   on abstract types only — holds no plain fragment on an object type: one on the field's own type is unfolded, one on
+   another object type, which can never match, is left out (since fix 9f8e2bb; the formerly listed shape
+   `{ me { ... on Node { ... on Pet { weight } } phone } }` left `... on Pet` under the Human-typed `me`) *)
+Theorem narrowed_selections_hold_no_plain_object_fragment : forall sc ss t, Forall (settled sc) (narrow_to_type sc ss t).
+Proof. exact narrow_to_type_settled. Qed.
+Theorem object_typed_levels_hold_no_plain_object_fragment : forall tm sc ss ip T,
+  kind_of sc T = KOther -> Forall (spread_in T) ss -> Forall (settled sc) (fst (sanitize tm sc ss ip)).
+Proof. exact object_level_is_settled. Qed.
+Theorem object_typed_fields_send_no_plain_object_fragment : forall tm sc ip a ty x sub,
+  kind_of sc ty = KOther -> Forall (spread_in ty) (x :: sub) -> Forall (settled sc) (selection_for tm sc ip a ty (x :: sub)).
+Proof. exact object_field_selection_is_settled. Qed.
+Example c02_listed_shape_now :
+  fst (sanitize_op SanitizeProofs.ex_tm ex_sc
+         [SanField "me" "me" "Human" 0 [SanFrag "Node" "Human" 0 [SanFrag "Pet" "Node" 0 [SanField "weight" "weight" "Int" 0 []]];
+                                         SanField "phone" "phone" "String" 0 []]])
+  = [SanField "me" "me" "Human" 0 [id_helper; Sanitize.typename_helper; SanField "phone" "phone" "String" 0 []]].
+Proof. exact listed_shape_is_settled. Qed.
+
 (* sanitizer and planner composed: for an operation written without fragments in which no field has a root type, the
    plan made from the sanitized selection consists of steps that ask their service only for its own fields — the
    shape hypothesis of the planner theorem is a consequence here, not a premise *)
@@ -213,6 +232,9 @@ Example c02_nonvacuous :
 Proof. reflexivity. Qed.
 
 Print Assumptions argument_variables_listed.
+Print Assumptions narrowed_selections_hold_no_plain_object_fragment.
+Print Assumptions object_typed_levels_hold_no_plain_object_fragment.
+Print Assumptions object_typed_fields_send_no_plain_object_fragment.
 Print Assumptions what_the_client_selects_himself_is_not_scrubbed.
 Print Assumptions directive_argument_variables_listed.
 Print Assumptions listed_variables_forwarded.
